@@ -212,6 +212,16 @@ def run_case(pid, p, rng, res, spec, tier):
     elif pid == 'C05':
         from hv.monitors import c05
         base = c05.canon(out, tv)
+        # the complete answer set, collected independently of how prompted answers
+        # are stored: feed what is known through the file and let the persona
+        # answer the rest, until nothing new is asked
+        for _ in range(40):
+            q = fresh()
+            o2 = scen.solve_persona(q, file_map=dict(answers))
+            new = {k: v for k, v in q.answers.items() if k not in answers}
+            if not new:
+                break
+            answers.update(new)
         seqs = {c05.attempt_seq(tv)}
         variants = []
         K = 2 if tier == 'quick' else 4
